@@ -6,6 +6,8 @@ copy-on-write rules - that nothing reachable from keyword handling writes throug
 earlier report steps (C04.escape / C04.through / C04.inplace).  Not decided: state-by-state equality with
 the inlined schedule (runtime).
 """
+import re
+
 from verif import core, cow
 from verif.tree import walk, walk_fn, show, stmt_list, meth, strip
 
@@ -137,6 +139,80 @@ def run(chk):
     chk.instance(r_ord, "iterate", sample=order)
     if not order or order[0] != "create_next" or order[-1] != "end_report" or "handleKeyword" not in order:
         viol("iterate", "iterateScheduleSection no longer runs create_next, handleKeyword..., end_report per block: %s" % order)
+
+    # ---- C04.keep: the stored keywords survive construction whenever an action could later re-build the tail
+    r_keep = chk.rule("C04.keep", "the Schedule constructor keeps the stored keywords whenever the input (or the restart file) contains an ACTIONX/PYACTION, whatever the caller asked for (decision table over 5 atoms)", floor=32)
+    ctors = [f for f in fx.fns if f["q"] == "Opm::Schedule::Schedule" and any(p["n"] == "keepKeywords" for p in f["params"]) and f.get("body")
+             and any(c.get("m") == "iterateScheduleSection" for c in walk(f["body"]) if c["k"] == "MCall")]
+    if len(ctors) != 1:
+        raise core.AnalysisBroken("the Schedule constructor that iterates the SCHEDULE section was not found (%d)" % len(ctors))
+    ct = ctors[0]
+    import itertools
+
+    def batom(e, val):
+        t = show(e).replace("std::basic_string<char>", "std::string")
+        t = re.sub(r"(?:const )?std::string\{(\"[A-Z]+\"), <default>\}", r"\1", t)
+        if t == "keepKeywords":
+            return val["K"]
+        if t == 'section.has_keyword("ACTIONX")':
+            return val["A"]
+        if t == 'section.has_keyword("PYACTION")':
+            return val["P"]
+        if t == "rst":
+            return val["R"]
+        if t in ("(!(->rst).actions.empty())", "(!rst.actions.empty())"):
+            return val["RA"]
+        return None
+
+    def beval(e, val):
+        e = strip(e)
+        v = batom(e, val)
+        if v is not None:
+            return v
+        if e["k"] == "Bin" and e["op"] == "||":
+            return beval(e["c"][0], val) or beval(e["c"][1], val)
+        if e["k"] == "Bin" and e["op"] == "&&":
+            return beval(e["c"][0], val) and beval(e["c"][1], val)
+        if e["k"] == "Un" and e["op"] == "!":
+            return not beval(e["c"][0], val)
+        raise core.AnalysisBroken("Schedule constructor: unrecognised condition on keepKeywords: %s" % show(e))
+
+    def interp(stmts, val, seen):
+        for s_ in stmts:
+            if s_["k"] == "If":
+                touches = any((x["k"] == "Ref" and x["n"] == "keepKeywords") or (x["k"] == "MCall" and x.get("m") == "iterateScheduleSection") for x in walk(s_))
+                if not touches:
+                    continue
+                if beval(s_["cond"], val):
+                    interp(stmt_list(s_["then"]), val, seen)
+                elif s_.get("else"):
+                    interp(stmt_list(s_["else"]), val, seen)
+            elif s_["k"] == "Bin" and s_["op"] == "=" and show(s_["c"][0]) == "keepKeywords":
+                val["K"] = beval(s_["c"][1], val)
+            else:
+                for c in walk(s_):
+                    if c["k"] == "MCall" and c.get("m") == "iterateScheduleSection":
+                        seen.append(beval(c["a"][7], val))
+    import re
+    for bits in itertools.product([False, True], repeat=5):
+        val0 = dict(zip(["K", "A", "P", "R", "RA"], bits))
+        val = dict(val0)
+        seen = []
+        top = stmt_list(ct["body"])
+        if len(top) == 1 and top[0]["k"] == "Try":      # function-try-block
+            top = stmt_list(top[0]["body"])
+        interp(top, val, seen)
+        want = val0["K"] or val0["A"] or val0["P"] or (val0["R"] and val0["RA"])
+        key = "".join("1" if val0[k] else "0" for k in ["K", "A", "P", "R", "RA"])
+        chk.instance(r_keep, key, sample=dict(asked=val0["K"], has_actionx=val0["A"], has_pyaction=val0["P"], restart=val0["R"], restart_has_actions=val0["RA"], kept=seen))
+        if not seen or any(v != want for v in seen):
+            chk.violation(r_keep, key, "Schedule constructor: with keepKeywords=%s, ACTIONX in input=%s, PYACTION in input=%s, restart=%s with actions=%s the section is iterated with keepKeywords=%s; it must be %s, otherwise a later applyAction re-builds the following report steps from emptied blocks" % (
+                val0["K"], val0["A"], val0["P"], val0["R"], val0["RA"], seen, want), ct["file"], ct["l"])
+    # and iterateScheduleSection only clears when told not to keep
+    clr = [n for n in walk(its["body"]) if n["k"] == "If" and any(c.get("m") == "clearKeywords" for c in walk(n["then"]) if c["k"] == "MCall")]
+    chk.instance(r_keep, "clear-guard", sample=[show(n["cond"]) for n in clr])
+    if len(clr) != 1 or show(clr[0]["cond"]) != "(!keepKeywords)":
+        chk.violation(r_keep, "clear-guard", "iterateScheduleSection clears the stored keywords under %s; it must be exactly `!keepKeywords`" % [show(n["cond"]) for n in clr], its["file"], its["l"])
 
     # ---- C04.mode
     r_mode = chk.rule("C04.mode", "only the documented places read the action-mode parameters of HandlerContext; every other handler behaves identically in action and input mode", floor=10)
